@@ -24,6 +24,7 @@
 
 * :class:`_AdbIOManager`
 
+    * :meth:`_AdbIOManager._bulk_write_all`
     * :meth:`_AdbIOManager._read_bytes_from_device`
     * :meth:`_AdbIOManager._read_expected_packet_from_device`
     * :meth:`_AdbIOManager._read_packet_from_device`
@@ -517,11 +518,41 @@ class _AdbIOManager(object):
         """
         packed = msg.pack()
         _LOGGER.debug("bulk_write(%d): %r", len(packed), packed)
-        self._transport.bulk_write(packed, adb_info.transport_timeout_s)
+        self._bulk_write_all(packed, adb_info)
 
         if msg.data:
             _LOGGER.debug("bulk_write(%d): %r", len(msg.data), msg.data)
-            self._transport.bulk_write(msg.data, adb_info.transport_timeout_s)
+            self._bulk_write_all(msg.data, adb_info)
+
+    def _bulk_write_all(self, data, adb_info):
+        """Write all of ``data`` to the transport; if the transport reports a short write, send the remainder.
+
+        Parameters
+        ----------
+        data : bytes, bytearray
+            The data that will be sent
+        adb_info : _AdbTransactionInfo
+            Info and settings for this ADB transaction
+
+        Raises
+        ------
+        adb_shell.exceptions.AdbTimeoutError
+            The data was not sent completely in time
+
+        """
+        start = None
+
+        while True:
+            num_sent = self._transport.bulk_write(data, adb_info.transport_timeout_s)
+            if num_sent is None or num_sent >= len(data):
+                return
+
+            # The transport accepted only part of the data
+            data = data[num_sent:]
+            if start is None:
+                start = time.time()
+            elif time.time() - start > adb_info.read_timeout_s:
+                raise exceptions.AdbTimeoutError("Timeout: {} bytes were not sent (transport_timeout_s = {}, read_timeout_s = {})".format(len(data), adb_info.transport_timeout_s, adb_info.read_timeout_s))
 
 
 class AdbDevice(object):
